@@ -62,3 +62,38 @@ PROPS["C12"] = {
     "level_text": "Bounded symbolic model checking with the fault schedule as the symbolic input: each Write's outcome is a solver variable, so every failure index (and every accepted-prefix length) of every write site is decided, not sampled.",
     "level_note": "Bounds: the template/data dictionary in evidence.bounds. Trusted: go/ssa, gosym (native replay of every counterexample), z3.",
 }
+
+# ---------------------------------------------------------------- C05 / C18 (shared parser harnesses)
+def parse_jobs():
+    return [
+        Job("parse", "H_validFile", "", workers=1),
+        Job("parse", "H_parseCtx", "0..49,0..1,false", workers=16, maxsteps=300000),
+        Job("parse", "H_exprCtx", "0..17,0..2,false", workers=16, maxsteps=300000),
+        Job("parse", "H_parseCtx", "0..49,2,false", workers=16, maxsteps=300000, note="k=2"),
+        Job("parse", "H_prefix", "0..738,0", workers=16, maxsteps=600000, note="every prefix"),
+        Job("parse", "H_prefix", "0..738,1", tier="thorough", workers=16, maxsteps=600000, note="every prefix + 1 symbolic byte"),
+        Job("parse", "H_parseCtx", "0..49,3,true", tier="thorough", workers=16, maxsteps=300000, note="k=3 ascii"),
+        Job("parse", "H_exprCtx", "0..17,3,true", tier="thorough", workers=16, maxsteps=300000, note="k=3 ascii"),
+    ]
+
+PARSE_BOUNDS_Q = "parse.SoyFile on 50 concrete lexer/parser contexts followed by k <= 2 symbolic bytes (all 256 values); parse.Expr on 18 contexts with k <= 2; every prefix of a 738-byte valid file using every command; step bound 300000 (600000 for prefixes) SSA instructions per path acts as the unwinding assertion"
+PARSE_BOUNDS_T = PARSE_BOUNDS_Q + "; thorough adds k = 3 over ASCII for all contexts and every prefix + 1 symbolic byte"
+
+PROPS["C05"] = {
+    "jobs": parse_jobs(),
+    "viol_filter": r"^(C05:|step bound|call depth|main goroutine blocked|uncaught panic|harness:)",
+    "bounds_quick": PARSE_BOUNDS_Q, "bounds_thorough": PARSE_BOUNDS_T,
+    "outside": "inputs whose symbolic part is longer than 3 bytes; token-level duplications/swaps of long files; 'time proportional to input' is claimed only as: no explored path exceeds the step bound",
+    "assumptions": ["a path exceeding the step bound is reported as a candidate hang and confirmed by running the real parser on the solver's input under a wall clock"],
+    "level_text": "Bounded symbolic model checking of the real lexer goroutine + parser under the engine's scheduler: for each context every continuation of k arbitrary bytes is covered path by path; non-termination (step bound), deadlock of the main goroutine and escaping runtime panics are engine verdicts, each confirmed natively.",
+    "level_note": "Bounds: contexts x k symbolic bytes (evidence.bounds). Trusted: go/ssa, gosym incl. its cooperative scheduler (exact for one producer/one consumer), z3, stdlib models.",
+}
+PROPS["C18"] = {
+    "jobs": parse_jobs(),
+    "viol_filter": r"^C18:",
+    "bounds_quick": PARSE_BOUNDS_Q, "bounds_thorough": PARSE_BOUNDS_T,
+    "outside": "as C05; soy.ParseGlobals is covered through parse.Expr only",
+    "assumptions": ["a goroutine blocked on a channel operation that no live goroutine can complete is a leak; natively confirmed by runtime.NumGoroutine after a grace period"],
+    "level_text": "Bounded symbolic model checking: after every explored parse (success, error, trailing input) the engine's scheduler state is inspected; a scanner goroutine that is still blocked is a decidable state predicate per path.",
+    "level_note": "Same bounds and trusted base as C05.",
+}
